@@ -13,3 +13,9 @@
 (lemma ltakeSet ((a Lst) (i Int) (x Val)) (=> (and (<= 0 i) (< i (llen a))) (= (ltake (lset a i x) (+ i 1)) (app (ltake a i) (LCons x LNil)))) :induct a)
 (lemma ltakeAll ((a Lst) (n Int)) (=> (>= n (llen a)) (= (ltake a n) a)) :induct a)
 (lemma finLsnoc ((a Lst) (x Val)) (= (finL (app a (LCons x LNil))) (app (finL a) (LCons (finF x) LNil))) :induct a)
+(lemma appLen ((a Lst) (b Lst)) (= (llen (app a b)) (+ (llen a) (llen b))) :induct a)
+(lemma sappLen ((a SLst) (b SLst)) (= (sllen (sapp a b)) (+ (sllen a) (sllen b))) :induct a)
+(lemma rappLen ((a RLst) (b RLst)) (= (rllen (rapp a b)) (+ (rllen a) (rllen b))) :induct a)
+(lemma dropMarkersRank ((l Lst) (k String) (b Bool)) (<= (rankL (dropMarkers l k b)) (rankL l)) :induct l)
+(lemma flagsApp ((a Lst) (b Lst)) (>= (flagsInL (app a b)) (flagsInL b)) :induct a)
+(lemma slsetLen ((a SLst) (i Int) (x String)) (= (sllen (slset a i x)) (sllen a)) :induct a)
